@@ -47,7 +47,7 @@ theorem extAdd_append (e : Nat → Nat) (a b : List Nat) : extAdd (extAdd e a) b
 /-! ### `Function(u)` / `__del__`: only `_ref` changes -/
 
 /-- `Function(u, bdd)` of a node: one more reference, nothing else changes -/
-theorem wrap_spec (m : Mgr) (e : Nat → Nat) (h : GoodState m e) (u : Int) (hu : m.tbl.Mem u) :
+theorem dmp_wrap_spec (m : Mgr) (e : Nat → Nat) (h : GoodState m e) (u : Int) (hu : m.tbl.Mem u) :
     ∃ r', dmpWrap u m = (.ok (), { m with ref := r' }) ∧
       GoodState { m with ref := r' } (extInc e u.natAbs) := by
   obtain ⟨c, _, he, _⟩ := incref_spec m e u h.exact hu
@@ -72,7 +72,7 @@ theorem decref_ok_spec (m : Mgr) (e : Nat → Nat) (h : GoodState m e) (u : Int)
   exact ⟨_, he, hg⟩
 
 /-- `Function.__del__` of a live handle: one reference less, nothing else changes -/
-theorem drop_spec (m : Mgr) (e : Nat → Nat) (h : GoodState m e) (u : Int) (hp : 0 < e u.natAbs) :
+theorem dmp_drop_spec (m : Mgr) (e : Nat → Nat) (h : GoodState m e) (u : Int) (hp : 0 < e u.natAbs) :
     ∃ r', (dmpDrop u m).2 = { m with ref := r' } ∧
       GoodState { m with ref := r' } (extDec e u.natAbs) := by
   have hu : m.tbl.Mem u := h.exact.mem_of_ext_pos hp
@@ -100,7 +100,7 @@ theorem M.bind_eq_err {α β : Type} {x : M α} {f : α → M β} {m m1 : Mgr} {
 
 /-- the shelf `cache` (file id ↦ node of the receiving manager): every entry is a regular
 node denoting, over the levels of the manager, what the file says for that id -/
-def CacheOK (succ : List PEntry) (lm : List (Nat × Nat)) (n : Nat) (t : Tbl)
+def ShelfOK (succ : List PEntry) (lm : List (Nat × Nat)) (n : Nat) (t : Tbl)
     (cache : List (Nat × Int)) : Prop :=
   ∀ k u, cache.lookup k = some u → 0 < u ∧ t.Mem u ∧ k ≠ 1 ∧ (PEntry.find succ k).isSome ∧
     ∀ a, den t u a = evalL succ lm (n + 1) (k : Int) a
@@ -114,7 +114,7 @@ says for `uid`; only `_ref` changes -/
 theorem nodeFromInt_spec {succ : List PEntry} {lm : List (Nat × Nat)} {n : Nat}
     (hs : SuccWF succ n) (hdom : ∀ k e, PEntry.find succ k = some e → k ≠ 1 → (lm.lookup e.lvl).isSome)
     (m : Mgr) (e : Nat → Nat) (h : GoodState m e)
-    (cache : List (Nat × Int)) (hc : CacheOK succ lm n m.tbl cache) (uid : Int)
+    (cache : List (Nat × Int)) (hc : ShelfOK succ lm n m.tbl cache) (uid : Int)
     (hres : uid.natAbs = 1 ∨ (cache.lookup uid.natAbs).isSome) :
     ∃ r r', nodeFromInt cache uid m = (.ok r, { m with ref := r' }) ∧
       GoodState { m with ref := r' } (extInc e r.natAbs) ∧ m.tbl.Mem r ∧ (0 < r ↔ 0 < uid) ∧
@@ -122,7 +122,7 @@ theorem nodeFromInt_spec {succ : List PEntry} {lm : List (Nat × Nat)} {n : Nat}
       (uid.natAbs ≠ 1 → cache.lookup uid.natAbs = some (if uid < 0 then -r else r)) := by
   by_cases hm1 : uid = -1
   · subst hm1
-    obtain ⟨r', hw, hg⟩ := wrap_spec m e h (-1) (Or.inl rfl)
+    obtain ⟨r', hw, hg⟩ := dmp_wrap_spec m e h (-1) (Or.inl rfl)
     refine ⟨-1, r', ?_, hg, Or.inl rfl, by simp, ?_, fun h => absurd rfl h⟩
     · unfold nodeFromInt
       simp only [if_true]
@@ -130,7 +130,7 @@ theorem nodeFromInt_spec {succ : List PEntry} {lm : List (Nat × Nat)} {n : Nat}
     · intro a; rw [den_neg_one, evalL_term _ _ _ _ _ rfl]; rfl
   by_cases h1 : uid = 1
   · subst h1
-    obtain ⟨r', hw, hg⟩ := wrap_spec m e h 1 (Or.inl rfl)
+    obtain ⟨r', hw, hg⟩ := dmp_wrap_spec m e h 1 (Or.inl rfl)
     refine ⟨1, r', ?_, hg, Or.inl rfl, by simp, ?_, fun h => absurd rfl h⟩
     · unfold nodeFromInt
       simp only [show ¬ ((1 : Int) = -1) by decide, if_false, if_true]
@@ -141,7 +141,7 @@ theorem nodeFromInt_spec {succ : List PEntry} {lm : List (Nat × Nat)} {n : Nat}
   · exact absurd hres hn1
   obtain ⟨k, hk⟩ := Option.isSome_iff_exists.mp hres
   obtain ⟨kpos, kmem, _, kfind, kden⟩ := hc _ k hk
-  obtain ⟨r1, hw1, hg1⟩ := wrap_spec m e h k kmem
+  obtain ⟨r1, hw1, hg1⟩ := dmp_wrap_spec m e h k kmem
   have hlook : (M.ofOption Err.key (cache.lookup uid.natAbs) : M Int) m = (.ok k, m) := by
     rw [hk]; rfl
   have hu0 : uid ≠ 0 := by
@@ -153,10 +153,10 @@ theorem nodeFromInt_spec {succ : List PEntry} {lm : List (Nat × Nat)} {n : Nat}
     have hI1 : Inv ({ m with ref := r1 } : Mgr) := hg1.inv
     obtain ⟨hap, hmn, hdn⟩ := apply_not_spec { m with ref := r1 } hI1 "not" not_is_negation.1
       not_is_negation.2 k kmem
-    obtain ⟨r2, hw2, hg2⟩ := wrap_spec { m with ref := r1 } _ hg1 (-k) hmn
+    obtain ⟨r2, hw2, hg2⟩ := dmp_wrap_spec { m with ref := r1 } _ hg1 (-k) hmn
     have hp : 0 < extInc (extInc e k.natAbs) (-k).natAbs k.natAbs := by
       simp [extInc]
-    obtain ⟨r3, hd3, hg3⟩ := drop_spec { m with ref := r2 } _ hg2 k hp
+    obtain ⟨r3, hd3, hg3⟩ := dmp_drop_spec { m with ref := r2 } _ hg2 k hp
     have hsign : (0 < -k ↔ 0 < uid) := ⟨fun h' => by omega, fun h' => by omega⟩
     refine ⟨-k, r3, ?_, ?_, mem_neg kmem, hsign, ?_, fun _ => by simp [hneg, hk]⟩
     · unfold nodeFromInt
@@ -401,7 +401,7 @@ theorem makeNode_spec {succ : List PEntry} {lm : List (Nat × Nat)} {n : Nat}
     (hs : SuccWF succ n) (hdom : ∀ k e, PEntry.find succ k = some e → k ≠ 1 → (lm.lookup e.lvl).isSome)
     (vat : List (Nat × String)) (ln : JLine) (m : Mgr) (e : Nat → Nat) (h : GoodState m e)
     (hpn : PredNodes m)
-    (cache : List (Nat × Int)) (hc : CacheOK succ lm n m.tbl cache)
+    (cache : List (Nat × Int)) (hc : ShelfOK succ lm n m.tbl cache)
     (hnew : cache.lookup ln.id = none)
     (hline : PEntry.find succ ln.id = some ⟨ln.id, ln.lvl, some ln.lo, some ln.hi⟩) (hid : ln.id ≠ 1)
     (hlo : ln.lo.natAbs = 1 ∨ (cache.lookup ln.lo.natAbs).isSome)
@@ -410,7 +410,7 @@ theorem makeNode_spec {succ : List PEntry} {lm : List (Nat × Nat)} {n : Nat}
     (hvar : m.tbl.vars[name]? = some j) (hlm : lm.lookup ln.lvl = some j) :
     ∃ u m5 r, makeNode false vat ln cache m = (.ok (cache ++ [(ln.id, u)]), { m5 with ref := r }) ∧
       Kept m m5 ∧ GoodState { m5 with ref := r } (extInc e u.natAbs) ∧
-      CacheOK succ lm n m5.tbl (cache ++ [(ln.id, u)]) ∧ PredNodes m5 := by
+      ShelfOK succ lm n m5.tbl (cache ++ [(ln.id, u)]) ∧ PredNodes m5 := by
   obtain ⟨v', w', hv', hw', hlvl, hwpos, hk2, _⟩ := hs.node _ _ hline hid
   simp only [Option.some.injEq] at hv' hw'
   subst hv' hw'
@@ -427,7 +427,7 @@ theorem makeNode_spec {succ : List PEntry} {lm : List (Nat × Nat)} {n : Nat}
     have := (var_lite (extInc (extInc e lo.natAbs) hi.natAbs) name m2 g2.lite).1.exact
     rw [evar] at this; exact this
   have g3 : GoodState m3 (extInc (extInc e lo.natAbs) hi.natAbs) := g2.of_kept k3 x3
-  obtain ⟨r4, ewg, g4⟩ := wrap_spec m3 _ g3 g mg
+  obtain ⟨r4, ewg, g4⟩ := dmp_wrap_spec m3 _ g3 g mg
   -- ite
   let m4 : Mgr := { m3 with ref := r4 }
   have mhi4 : m4.tbl.Mem hi := k3.ext.mem mhi
@@ -438,8 +438,8 @@ theorem makeNode_spec {succ : List PEntry} {lm : List (Nat × Nat)} {n : Nat}
     have := (ite_lite (extInc (extInc (extInc e lo.natAbs) hi.natAbs) g.natAbs) g hi lo m4 g4.lite).1.exact
     rw [eite] at this; exact this
   have g5 : GoodState m5 (extInc (extInc (extInc e lo.natAbs) hi.natAbs) g.natAbs) := g4.of_kept k5 x5
-  obtain ⟨r6, ewu, g6⟩ := wrap_spec m5 _ g5 u p5.mem
-  obtain ⟨r7, ewu2, g7⟩ := wrap_spec { m5 with ref := r6 } _ g6 u p5.mem
+  obtain ⟨r6, ewu, g6⟩ := dmp_wrap_spec m5 _ g5 u p5.mem
+  obtain ⟨r7, ewu2, g7⟩ := dmp_wrap_spec { m5 with ref := r6 } _ g6 u p5.mem
   -- the made node
   have hW := h.inv.wf.toWF
   have dhi4 : ∀ a, den m4.tbl hi a = evalL succ lm (n + 1) ln.hi a := fun a => by
@@ -464,28 +464,28 @@ theorem makeNode_spec {succ : List PEntry} {lm : List (Nat × Nat)} {n : Nat}
   -- the releases
   have pU : 0 < extInc (extInc (extInc (extInc (extInc e lo.natAbs) hi.natAbs) g.natAbs) u.natAbs) u.natAbs u.natAbs := by
     simp [extInc]
-  obtain ⟨r8, ed8, g8⟩ := drop_spec { m5 with ref := r7 } _ g7 u pU
+  obtain ⟨r8, ed8, g8⟩ := dmp_drop_spec { m5 with ref := r7 } _ g7 u pU
   have pG : 0 < extDec (extInc (extInc (extInc (extInc (extInc e lo.natAbs) hi.natAbs) g.natAbs) u.natAbs) u.natAbs) u.natAbs g.natAbs := by
     simp only [extInc_apply, extDec_apply, if_true]
     generalize (if g.natAbs = lo.natAbs then 1 else 0) = a
     generalize (if g.natAbs = hi.natAbs then 1 else 0) = b
     generalize (if g.natAbs = u.natAbs then 1 else 0) = d
     omega
-  obtain ⟨r9, ed9, g9⟩ := drop_spec { m5 with ref := r8 } _ g8 g pG
+  obtain ⟨r9, ed9, g9⟩ := dmp_drop_spec { m5 with ref := r8 } _ g8 g pG
   have pH : 0 < extDec (extDec (extInc (extInc (extInc (extInc (extInc e lo.natAbs) hi.natAbs) g.natAbs) u.natAbs) u.natAbs) u.natAbs) g.natAbs hi.natAbs := by
     simp only [extInc_apply, extDec_apply, if_true]
     generalize (if hi.natAbs = lo.natAbs then 1 else 0) = a
     generalize (if hi.natAbs = g.natAbs then 1 else 0) = c
     generalize (if hi.natAbs = u.natAbs then 1 else 0) = d
     omega
-  obtain ⟨r10, ed10, g10⟩ := drop_spec { m5 with ref := r9 } _ g9 hi pH
+  obtain ⟨r10, ed10, g10⟩ := dmp_drop_spec { m5 with ref := r9 } _ g9 hi pH
   have pL : 0 < extDec (extDec (extDec (extInc (extInc (extInc (extInc (extInc e lo.natAbs) hi.natAbs) g.natAbs) u.natAbs) u.natAbs) u.natAbs) g.natAbs) hi.natAbs lo.natAbs := by
     simp only [extInc_apply, extDec_apply, if_true]
     generalize (if lo.natAbs = hi.natAbs then 1 else 0) = b
     generalize (if lo.natAbs = g.natAbs then 1 else 0) = c
     generalize (if lo.natAbs = u.natAbs then 1 else 0) = d
     omega
-  obtain ⟨r11, ed11, g11⟩ := drop_spec { m5 with ref := r10 } _ g10 lo pL
+  obtain ⟨r11, ed11, g11⟩ := dmp_drop_spec { m5 with ref := r10 } _ g10 lo pL
   rw [ledger_makeNode] at g11
   have pn3 : PredNodes m3 := by
     have := var_predNodes _ name m2 g2.lite (hpn.congr rfl rfl)
@@ -591,7 +591,7 @@ theorem ChildrenFirst.split {l : List JLine} (h : ChildrenFirst l) :
       obtain ⟨h1, _⟩ := List.append_inj' this rfl
       exact ih pre ln post' h1
 
-theorem lookup_isSome_of_mem_keys (cache : List (Nat × Int)) (k : Nat) :
+theorem dmp_lookup_isSome_of_mem_keys (cache : List (Nat × Int)) (k : Nat) :
     (cache.lookup k).isSome ↔ k ∈ cache.map (·.1) := by
   induction cache with
   | nil => simp
@@ -603,7 +603,7 @@ theorem lookup_isSome_of_mem_keys (cache : List (Nat × Int)) (k : Nat) :
     · have : (k == a) = false := by simpa using h
       simp only [this, ih, h, false_or]
 
-theorem lookup_of_mem_nodup (cache : List (Nat × Int)) (hn : (cache.map (·.1)).Nodup)
+theorem dmp_lookup_of_mem_nodup (cache : List (Nat × Int)) (hn : (cache.map (·.1)).Nodup)
     (k : Nat) (u : Int) (hm : (k, u) ∈ cache) : cache.lookup k = some u := by
   induction cache with
   | nil => simp at hm
@@ -633,10 +633,10 @@ theorem makeNodes_spec {succ : List PEntry} {lm : List (Nat × Nat)} {n : Nat}
     (vat : List (Nat × String)) :
     ∀ (rest pre : List JLine) (cache : List (Nat × Int)) (m : Mgr) (e : Nat → Nat),
       ChildrenFirst (pre ++ rest) → (∀ ln ∈ rest, LineOK succ lm vat m.tbl.vars ln) →
-      (∀ l' ∈ pre, (cache.lookup l'.id).isSome) → GoodState m e → CacheOK succ lm n m.tbl cache →
+      (∀ l' ∈ pre, (cache.lookup l'.id).isSome) → GoodState m e → ShelfOK succ lm n m.tbl cache →
       (cache.map (·.1)).Nodup → PredNodes m →
       ∃ added m', makeNodes false vat rest cache m = (.ok (cache ++ added), m') ∧ Kept m m' ∧ PredNodes m' ∧
-        GoodState m' (extAdd e (added.map (·.2.natAbs))) ∧ CacheOK succ lm n m'.tbl (cache ++ added) ∧
+        GoodState m' (extAdd e (added.map (·.2.natAbs))) ∧ ShelfOK succ lm n m'.tbl (cache ++ added) ∧
         ((cache ++ added).map (·.1)).Nodup ∧ (∀ l' ∈ pre ++ rest, ((cache ++ added).lookup l'.id).isSome) := by
   intro rest
   induction rest with
@@ -685,7 +685,7 @@ theorem makeNodes_spec {succ : List PEntry} {lm : List (Nat × Nat)} {n : Nat}
         intro a ha b hb hab
         simp at hb
         subst hb hab
-        have := (lookup_isSome_of_mem_keys cache _).mpr ha
+        have := (dmp_lookup_isSome_of_mem_keys cache _).mpr ha
         rw [hnew] at this; cases this
       obtain ⟨added, m', e1, k1, q1, g1, c1, n1, a1⟩ := ih (pre ++ [ln]) (cache ++ [(ln.id, u)])
         { m5 with ref := r } (extInc e u.natAbs) hcf'
@@ -713,7 +713,7 @@ theorem makeNodes_spec {succ : List PEntry} {lm : List (Nat × Nat)} {n : Nat}
 theorem rootsFromInts_spec {succ : List PEntry} {lm : List (Nat × Nat)} {n : Nat}
     (hs : SuccWF succ n) (hdom : ∀ k e, PEntry.find succ k = some e → k ≠ 1 → (lm.lookup e.lvl).isSome)
     (cache : List (Nat × Int)) :
-    ∀ (ks : List Int) (m : Mgr) (e : Nat → Nat), GoodState m e → CacheOK succ lm n m.tbl cache →
+    ∀ (ks : List Int) (m : Mgr) (e : Nat → Nat), GoodState m e → ShelfOK succ lm n m.tbl cache →
       (∀ k ∈ ks, k.natAbs = 1 ∨ (cache.lookup k.natAbs).isSome) →
       ∃ us r, rootsFromInts cache ks m = (.ok us, { m with ref := r }) ∧
         GoodState { m with ref := r } (extAdd e (us.map Int.natAbs)) ∧
@@ -747,7 +747,7 @@ theorem releaseLoop_spec {succ : List PEntry} {lm : List (Nat × Nat)} {n : Nat}
     (hs : SuccWF succ n) (hdom : ∀ k e, PEntry.find succ k = some e → k ≠ 1 → (lm.lookup e.lvl).isSome)
     (cache : List (Nat × Int)) (hn : (cache.map (·.1)).Nodup) :
     ∀ (ents : List (Nat × Int)) (prev : Option Int) (m : Mgr) (e : Nat → Nat),
-      (∀ p ∈ ents, p ∈ cache) → CacheOK succ lm n m.tbl cache →
+      (∀ p ∈ ents, p ∈ cache) → ShelfOK succ lm n m.tbl cache →
       GoodState m (extAdd e (ents.map (·.2.natAbs) ++ prev.toList.map Int.natAbs)) →
       ∃ last r, releaseLoop false cache ents prev m = (.ok (), last, { m with ref := r }) ∧
         GoodState { m with ref := r } (extAdd e (last.toList.map Int.natAbs)) := by
@@ -759,7 +759,7 @@ theorem releaseLoop_spec {succ : List PEntry} {lm : List (Nat × Nat)} {n : Nat}
   | cons p rest ih =>
     intro prev m e hsub hc h
     obtain ⟨k, u0⟩ := p
-    have hlk : cache.lookup k = some u0 := lookup_of_mem_nodup cache hn k u0 (hsub _ List.mem_cons_self)
+    have hlk : cache.lookup k = some u0 := dmp_lookup_of_mem_nodup cache hn k u0 (hsub _ List.mem_cons_self)
     obtain ⟨u0pos, u0mem, hk1, _, _⟩ := hc k u0 hlk
     have hnat : ((k : Int)).natAbs = k := by simp
     obtain ⟨u, r1, e1, g1, mu, su, _, hlu⟩ := nodeFromInt_spec hs hdom m _ h cache hc (k : Int)
@@ -786,7 +786,7 @@ theorem releaseLoop_spec {succ : List PEntry} {lm : List (Nat × Nat)} {n : Nat}
       | none => exact ⟨r1, rfl, by simpa using g1'⟩
       | some p =>
         simp only [Option.toList, List.map_cons, List.map_nil, List.cons_append, List.nil_append] at g1'
-        obtain ⟨r2, hd, hg⟩ := drop_spec { m with ref := r1 } _ g1' p (extAdd_pos _ _ _)
+        obtain ⟨r2, hd, hg⟩ := dmp_drop_spec { m with ref := r1 } _ g1' p (extAdd_pos _ _ _)
         rw [extDec_extAdd] at hg
         exact ⟨r2, hd, hg⟩
     -- the checks and the release
@@ -1048,7 +1048,7 @@ theorem loadJson_false_spec (f : JsonFile) (hf : JsonWF f) (tgt : Mgr) (e : Nat 
     | none => exact ⟨r4, rfl, by simpa [extAdd_nil] using g4⟩
     | some p =>
       simp only [Option.toList, List.map_cons, List.map_nil] at g4
-      obtain ⟨r5, hd, hg5⟩ := drop_spec { m2 with ref := r4 } _ g4 p (extAdd_pos _ _ _)
+      obtain ⟨r5, hd, hg5⟩ := dmp_drop_spec { m2 with ref := r4 } _ g4 p (extAdd_pos _ _ _)
       rw [extDec_extAdd, extAdd_nil] at hg5
       exact ⟨r5, hd, hg5⟩
   -- `assert_consistent`
@@ -1156,6 +1156,74 @@ theorem json_roundtrip_off (src : Mgr) (hIs : Inv src) (hvs : DmpVarsOK src.tbl)
   apply R.imp_mem
   intro u hu r ⟨h1, h2⟩
   exact ⟨h1, fun α => by rw [h2 α, hev α u hu]⟩
+
+
+/-! ### `dd.autoref.BDD.load` of a pickle: one reference per returned `Function` -/
+
+theorem Forall2.right_mem {α β : Type} {R : α → β → Prop} {l : List α} {l' : List β}
+    (h : Forall2 R l l') : ∀ b ∈ l', ∃ a, R a b := by
+  induction h with
+  | nil => intro b hb; simp at hb
+  | cons hab _ ih =>
+    intro b hb
+    rcases List.mem_cons.mp hb with h' | h'
+    · subst h'; exact ⟨_, hab⟩
+    · exact ih b h'
+
+theorem RootsRel.right_mem {P : Int → Int → Prop} {a b : Roots} (h : RootsRel P a b) :
+    ∀ r ∈ b.values, ∃ u, P u r := by
+  cases h with
+  | none => intro r hr; simp [Roots.values] at hr
+  | list hl => exact hl.right_mem
+  | dict hd =>
+    intro r hr
+    simp only [Roots.values, List.mem_map] at hr
+    obtain ⟨p, hp, rfl⟩ := hr
+    obtain ⟨q, hq⟩ := hd.right_mem p hp
+    exact ⟨q.2, hq.2⟩
+
+theorem wrapList_spec : ∀ (us : List Int) (m : Mgr) (ext : Nat → Nat), Inv m → RefExact m ext →
+    (∀ u ∈ us, m.tbl.Mem u) →
+    ∃ r, wrapList us m = (.ok (), { m with ref := r }) ∧ Inv { m with ref := r } ∧
+      RefExact { m with ref := r } (extAdd ext (us.map Int.natAbs)) := by
+  intro us
+  induction us with
+  | nil => intro m ext hI hr _; exact ⟨m.ref, rfl, hI, by simpa [extAdd_nil] using hr⟩
+  | cons u rest ih =>
+    intro m ext hI hr hm
+    have hu := hm u List.mem_cons_self
+    obtain ⟨c, _, he, hr'⟩ := incref_spec m ext u hr hu
+    have hk := incref_kept m hI u
+    rw [he] at hk
+    have hmm : m.mem u = true := (Mgr.mem_iff m u).mpr hu
+    obtain ⟨r, e2, I2, R2⟩ := ih { m with ref := m.ref.insert u.natAbs (c + 1) } _ hk.inv hr'
+      (fun x hx => hm x (List.mem_cons_of_mem _ hx))
+    refine ⟨r, ?_, I2, ?_⟩
+    · rw [wrapList]
+      simp only [dmpWrap, hmm, Bool.not_true, Bool.false_eq_true, if_false, he]
+      exact e2
+    · rw [extAdd_extInc] at R2; simpa using R2
+
+/-- `C12_load_target_counts` for `dd.autoref.BDD.load` of a pickle: exact counts for the
+ledger "user references plus one per returned `Function`" -/
+theorem pickleAutoref_counts (ext : Nat → Nat) (f : PickleFile) (levels : Bool)
+    (m : Mgr) (hI : Inv m) (hx : RefExact m ext) (hb : DmpVarsBij m.tbl) (hc : m.ctx = false)
+    (hwf : PickleWF f) (hr : RootsResolvable f)
+    (lm : List (Nat × Nat)) (m1 : Mgr)
+    (hv : loadVars levels f.vars.length f.vars [] m = (.ok lm, m1))
+    (hg : Contig m1.tbl) :
+    ∃ roots' m', loadPickleAutoref f levels m = (.ok roots', m') ∧ Inv m' ∧
+      RefExact m' (extAdd ext (roots'.values.map Int.natAbs)) ∧ LoadedFrom f m'.tbl roots' := by
+  obtain ⟨roots', m2, e2, I2, R2, L2⟩ := pickle_load_counts ext f levels m hI hx hb hc hwf hr lm m1 hv hg
+  have hmem : ∀ u ∈ roots'.values, m2.tbl.Mem u := by
+    intro u hu
+    obtain ⟨_, h, _⟩ := RootsRel.right_mem L2 u hu
+    exact h
+  obtain ⟨r, e3, I3, R3⟩ := wrapList_spec roots'.values m2 ext I2 R2 hmem
+  refine ⟨roots', { m2 with ref := r }, ?_, I3, R3, L2⟩
+  unfold loadPickleAutoref
+  rw [e2]
+  simp only [e3]
 
 
 end DD
